@@ -75,6 +75,39 @@ fn run_probe(file_mode: bool, entries: &[(String, String)], dir: &str, n: u64) -
     }
 }
 
+/// the REAL server binary with the same settings: does `main` let start-up fail? `exit:<status>` (within 1.5 s) or `running`
+/// (killed). Only used for settings the loader / validator refuse, so no port is ever served for long.
+fn run_main(file_mode: bool, entries: &[(String, String)], dir: &str, n: u64) -> String {
+    let bin = format!("{}/roughenough-server", std::env::var("RVH_REPO_BIN").unwrap_or_else(|_| "/verif/.build/repo-target/debug".into()));
+    if !std::path::Path::new(&bin).exists() { return "skip".into(); }
+    let mut cmd = Command::new(bin);
+    for (_, e) in KEYS.iter() { cmd.env_remove(e); }
+    cmd.env("RUST_BACKTRACE", "0");
+    let path = format!("{}/cfgmain-{}-{}.yaml", dir, std::process::id(), n);
+    if file_mode {
+        let mut body = String::new();
+        for (k, v) in entries { body.push_str(&format!("{}: {}\n", k, v)); }
+        std::fs::write(&path, body).unwrap();
+        cmd.arg(&path);
+    } else {
+        cmd.arg("ENV");
+        for (k, v) in entries {
+            if let Some((_, e)) = KEYS.iter().find(|(f, _)| f == k) { cmd.env(e, v.trim_matches('"')); }
+        }
+    }
+    let mut child = match cmd.stdin(Stdio::null()).stdout(Stdio::null()).stderr(Stdio::null()).spawn() { Ok(c) => c, Err(_) => return "skip".into() };
+    let t0 = std::time::Instant::now();
+    let res = loop {
+        match child.try_wait() {
+            Ok(Some(st)) => break format!("exit:{}", st.code().map(|c| c.to_string()).unwrap_or("signal".into())),
+            _ if t0.elapsed() > std::time::Duration::from_millis(1500) => { let _ = child.kill(); let _ = child.wait(); break "running".to_string(); }
+            _ => std::thread::sleep(std::time::Duration::from_millis(5)),
+        }
+    };
+    let _ = std::fs::remove_file(&path);
+    res
+}
+
 fn canon(s: &str) -> String {
     if s.starts_with("refused") || s.is_empty() { "refused".to_string() } else { s.replace(' ', ",") }
 }
@@ -89,7 +122,12 @@ fn case(out: &mut Out, entries: &[(String, String)], dir: &str) {
     let f = run_probe(true, entries, dir, n);
     let e = run_probe(false, entries, dir, n);
     let es = if entries.is_empty() { "-".to_string() } else { entries.iter().map(|(k, v)| format!("{}={}", k, v)).collect::<Vec<_>>().join(";") };
-    out.case("cfg", &[&es, &num_cpus().to_string()], &format!("file={} env={}", canon(&f), canon(&e)));
+    // what the loader / validator refuse must make the server binary's start-up fail too (main's own wiring)
+    // (`~kind`: how the probe's refusal came about — error / invalid / panic — decides the status main ends with)
+    let kind = |p: &str| p.strip_prefix("refused:").unwrap_or("error").to_string();
+    let mf = if canon(&f) == "refused" { format!("{}~{}", run_main(true, entries, dir, n), kind(&f)) } else { "skip".to_string() };
+    let me = if canon(&e) == "refused" { format!("{}~{}", run_main(false, entries, dir, n), kind(&e)) } else { "skip".to_string() };
+    out.case("cfg", &[&es, &num_cpus().to_string()], &format!("file={} env={} mainfile={} mainenv={}", canon(&f), canon(&e), mf, me));
 }
 
 fn num_cpus() -> usize {
